@@ -20,7 +20,7 @@ PROPS["C13"] = dict(
 _graph_note = ("Trusted: TLC, the binder's comparison code; the spec's definitions are cross-checked by TLC on every enumerated graph "
                "(orders are permutations of the reachable set, components partition the nodes, the condensation is acyclic, the immediate dominator "
                "is unique, two formulations of the dominance frontier agree; on graphs of <= 3 nodes the table-based evaluation equals the literal definitions). "
-               "Graphs beyond the enumerated bounds are covered by recorded random graphs only.")
+               "Graphs beyond the enumerated bounds are covered by recorded random multigraphs (to 60 nodes for orders/SCC, 40 for dominators) validated by GraphTrace.tla.")
 
 PROPS["C18"] = dict(
     family="graph",
@@ -44,6 +44,8 @@ PROPS["C18"] = dict(
              consts=dict(Depth={"quick": 3, "thorough": 5})),
         dict(name="marks_trace", kind="trace", family="marks", module="MarksTrace.tla", cfg="MarksTrace.cfg",
              record_args={"quick": ["-n", 200, "-ops", 150], "thorough": ["-n", 3000, "-ops", 300]}),
+        dict(name="graph_trace", kind="trace", family="graphrec", module="GraphTrace.tla", cfg="GraphTrace.cfg",
+             record_args={"quick": ["-n", 200, "-max", 60, "-ops", "orders,scc"], "thorough": ["-n", 3000, "-max", 60, "-ops", "orders,scc"]}),
     ],
 )
 PROPS["C18"]["stages"] = [dict(st, specdir="graph") for st in PROPS["C18"]["stages"]]
@@ -62,6 +64,9 @@ PROPS["C19"] = dict(
              consts=dict(MaxNodes=5, MaxEdges=6, Ordered="FALSE", Extra="")),
     ],
 )
+PROPS["C19"]["stages"].append(
+    dict(name="graph_trace", kind="trace", family="graphrec", module="GraphTrace.tla", cfg="GraphTrace.cfg",
+         record_args={"quick": ["-n", 300, "-max", 40, "-ops", "dom"], "thorough": ["-n", 5000, "-max", 40, "-ops", "dom"]}))
 PROPS["C19"]["stages"] = [dict(st, specdir="graph") for st in PROPS["C19"]["stages"]]
 
 PROPS["C14"] = dict(
@@ -247,7 +252,7 @@ PROPS["C04"] = dict(
     level_text="TLC enumerates every pair (x1 a bag, x2 a sequence) of 0..4 values over {-2,0,1} (thorough 0..5 over {-2,0,1,3}) and computes sign, T^2 and DoF of the pooled, Welch, paired and one-sample (mu0 in {0, 1/2, -3}) tests exactly, checking that swapping negates T, that x -> a x + b leaves T^2 and DoF unchanged, the Welch-Satterthwaite bounds and pooled = Welch for equal sizes and variances; the binder runs the real tests under 4 affine maps (offsets to 1e6, scale 1/8..4096) for the three alternatives and the swapped call, compares N1, N2, T, DoF, the documented errors and P against the Student-t CDF from gonum's incomplete beta, and checks MeanCI (mean, symmetry, zero / infinite width, NaN for empty input, Student-t content of the interval = c)",
     level_note="Trusted: TLC, binder comparison code, gonum mathext.RegIncBeta for the Student-t CDF (independent of mathx.BetaInc). Tolerance on T and DoF: max(1e-9, 4096 n eps kappa), kappa = max|x| / scale. Errors are checked only where unambiguous (empty sample, length mismatch, all-constant data, a one-element sample for Welch and paired).",
     stages=[dict(name="gen", kind="gen", module="TTest.tla", cfg="TTest_gen.cfg",
-                 consts=dict(Vals={"quick": "ValsQuick", "thorough": "ValsThorough"}, MaxLen={"quick": 4, "thorough": 5}))],
+                 consts=dict(Vals={"quick": "ValsQuick", "thorough": "ValsThorough"}, MaxLen={"quick": 4, "thorough": 5}, Reps={"quick": "{1, 9}", "thorough": "{1, 3, 8}"}))],
 )
 
 PROPS["C08"] = dict(
